@@ -41,6 +41,7 @@
 #include "scpi/constants.h"
 
 #include <stdio.h>
+#include "scpi/verif.h"
 
 static const scpi_reg_info_t scpi_reg_details[SCPI_REG_COUNT] = {
     { SCPI_REG_CLASS_STB, SCPI_REG_GROUP_STB },
@@ -133,6 +134,7 @@ scpi_reg_val_t SCPI_RegGet(scpi_t * context, scpi_reg_name_t name) {
  */
 static size_t writeControl(scpi_t * context, scpi_ctrl_name_t ctrl, scpi_reg_val_t val) {
     if (context && context->interface && context->interface->control) {
+        SCPI_VERIF_EV(context, SCPI_VE_CONTROL, NULL, ctrl, val);
         return context->interface->control(context, ctrl, val);
     } else {
         return 0;
@@ -150,6 +152,7 @@ void SCPI_RegSet(scpi_t * context, scpi_reg_name_t name, scpi_reg_val_t val) {
     }
 
     scpi_reg_group_info_t register_group;
+    SCPI_VERIF_EV(context, SCPI_VE_REGSET_BEGIN, NULL, name, val);
 
     do {
         scpi_reg_class_t register_type = scpi_reg_details[name].type;
